@@ -63,7 +63,7 @@ Definition bad_answer {A} (r : wresp) (s : bytes) (out : res A) : Prop :=
   end.
 
 Lemma good_not_bad {A} r s (out : res A) : good_resp r s -> bad_answer r s out -> False.
-Proof. destruct r as [[|n]| |kind]; cbn [good_resp bad_answer]; intros; lia || tauto. Qed.
+Proof. destruct r as [[|n]| |kind]; cbn [good_resp bad_answer]; intros Hg Hb; lia || tauto. Qed.
 
 (* every call in the log offered a non-empty buffer and got an answer after which write_all goes on *)
 Fixpoint log_good (o : oracle) (hist : list bytes) : Prop :=
@@ -98,12 +98,12 @@ Proof.
   induction fuel as [|f IH]; intros st buf HG.
   - destruct buf as [|b0 r0].
     + cbn [gwrite_all_loop fst snd]. split; [reflexivity|]. split; [exists []; split; [reflexivity|constructor]|].
-      exists [], []. rewrite app_nil_r. repeat split; auto.
+      exists [], []. rewrite !app_nil_r. split; [reflexivity|]. split; [reflexivity|]. left. auto.
     + cbn [gwrite_all_loop fst snd]. split; [reflexivity|]. split; [exists []; split; [reflexivity|constructor]|].
-      exists [], (b0 :: r0). rewrite app_nil_r. repeat split; auto. right. split; [discriminate|]. left. auto.
+      exists [], (b0 :: r0). rewrite app_nil_r. split; [reflexivity|]. split; [reflexivity|]. right. split; [discriminate|]. left. auto.
   - destruct buf as [|b0 r0].
     { cbn [gwrite_all_loop fst snd]. split; [reflexivity|]. split; [exists []; split; [reflexivity|constructor]|].
-      exists [], []. rewrite app_nil_r. repeat split; auto. }
+      exists [], []. rewrite !app_nil_r. split; [reflexivity|]. split; [reflexivity|]. left. auto. }
     assert (Hne : b0 :: r0 <> []) by discriminate.
     rewrite (gloop_S f o st (b0 :: r0) Hne). remember (b0 :: r0) as buf eqn:Ebuf. clear Ebuf b0 r0.
     assert (Hself : suffix_of buf buf) by (split; [exact Hne|exists []; reflexivity]).
@@ -112,13 +112,13 @@ Proof.
     + (* Ok(0) *)
       cbn [fst snd ghist gwa gacc]. split; [reflexivity|].
       split; [exists [buf]; split; [reflexivity|constructor; [exact Hself|constructor]]|].
-      exists [], buf. rewrite app_nil_r. repeat split; auto. right. split; [exact Hne|]. right.
+      exists [], buf. rewrite app_nil_r. split; [reflexivity|]. split; [reflexivity|]. right. split; [exact Hne|]. right.
       exists (ghist st). repeat split; auto. rewrite Eo. reflexivity.
     + (* Ok(S n) *)
       destruct (Nat.ltb (length buf) (S n)) eqn:El.
       * apply Nat.ltb_lt in El. cbn [fst snd ghist gwa gacc]. split; [reflexivity|].
         split; [exists [buf]; split; [reflexivity|constructor; [exact Hself|constructor]]|].
-        exists [], buf. rewrite app_nil_r. repeat split; auto. right. split; [exact Hne|]. right.
+        exists [], buf. rewrite app_nil_r. split; [reflexivity|]. split; [reflexivity|]. right. split; [exact Hne|]. right.
         exists (ghist st). repeat split; auto. rewrite Eo. cbn [bad_answer]. split; [exact El|reflexivity].
       * apply Nat.ltb_ge in El.
         set (st2 := mkG (buf :: ghist st) (gwa st) (gacc st ++ firstn (S n) buf)).
@@ -148,6 +148,544 @@ Proof.
     + (* Err(kind) *)
       cbn [fst snd ghist gwa gacc]. split; [reflexivity|].
       split; [exists [buf]; split; [reflexivity|constructor; [exact Hself|constructor]]|].
-      exists [], buf. rewrite app_nil_r. repeat split; auto. right. split; [exact Hne|]. right.
+      exists [], buf. rewrite app_nil_r. split; [reflexivity|]. split; [reflexivity|]. right. split; [exact Hne|]. right.
       exists (ghist st). repeat split; auto. rewrite Eo. reflexivity.
 Qed.
+
+(* one write_all of the serializer: the buffer is logged in [gwa] *)
+Lemma gwrite_all_spec o fuel st buf : log_good o (ghist st) ->
+  let st' := fst (gwrite_all fuel o st buf) in
+  let r := snd (gwrite_all fuel o st buf) in
+  gwa st' = buf :: gwa st
+  /\ (exists hnew, ghist st' = hnew ++ ghist st /\ Forall (suffix_of buf) hnew)
+  /\ exists p s, buf = p ++ s /\ gacc st' = gacc st ++ p
+       /\ ((r = Ok tt /\ s = [] /\ log_good o (ghist st')) \/ (s <> [] /\ stopped o (ghist st') s r)).
+Proof.
+  intros HG. unfold gwrite_all.
+  exact (gloop_spec o fuel (mkG (ghist st) (buf :: gwa st) (gacc st)) buf HG).
+Qed.
+
+(* ================================================= the serializer against an oracle ================================================= *)
+(* shape of a run of [gfeed]: all buffers written, or stopped inside buffer [b] = p ++ s after [done] *)
+Definition fed_all (o : oracle) (st st' : gstate) (bufs : list bytes) : Prop :=
+  gacc st' = gacc st ++ concat bufs /\ gwa st' = rev bufs ++ gwa st /\ log_good o (ghist st').
+
+Definition fed_part {A} (o : oracle) (st st' : gstate) (bufs : list bytes) (out : res A) : Prop :=
+  exists done b rest p s, bufs = done ++ b :: rest /\ b = p ++ s /\ s <> []
+    /\ gacc st' = gacc st ++ concat done ++ p
+    /\ gwa st' = rev (done ++ [b]) ++ gwa st
+    /\ stopped o (ghist st') s out.
+
+Lemma gfeed_spec o fuel : forall bufs st, log_good o (ghist st) ->
+  let st' := fst (gfeed fuel o st bufs) in
+  let r := snd (gfeed fuel o st bufs) in
+  (r = Ok tt /\ fed_all o st st' bufs) \/ (r <> Ok tt /\ fed_part o st st' bufs r).
+Proof.
+  induction bufs as [|b rest IH]; intros st HG.
+  - cbn [gfeed fst snd]. left. split; [reflexivity|]. unfold fed_all. cbn [concat rev app]. rewrite app_nil_r. auto.
+  - cbn [gfeed]. destruct (gwrite_all_spec o fuel st b HG) as [W [_ [p [s [E1 [E2 E3]]]]]].
+    destruct (gwrite_all fuel o st b) as [st1 r1]. cbn [fst snd] in W, E2, E3.
+    destruct E3 as [[-> [-> HG1]]|[Hs Hst]].
+    + rewrite app_nil_r in E1. subst p.
+      destruct (IH st1 HG1) as [[R [A1 [A2 A3]]]|[R [done [b' [rest' [p' [s' [B1 [B2 [B3 [B4 [B5 B6]]]]]]]]]]]].
+      * left. split; [exact R|]. unfold fed_all. cbn [concat rev].
+        split; [rewrite A1, E2, app_assoc; reflexivity|].
+        split; [rewrite A2, W, <- app_assoc; reflexivity|exact A3].
+      * right. split; [exact R|]. exists (b :: done), b', rest', p', s'.
+        split; [rewrite B1; reflexivity|]. split; [exact B2|]. split; [exact B3|].
+        split; [rewrite B4, E2; cbn [concat]; rewrite <- !app_assoc; reflexivity|].
+        split; [rewrite B5, W; cbn [app rev]; rewrite <- !app_assoc; reflexivity|exact B6].
+    + assert (R1 : r1 <> Ok tt).
+      { destruct Hst as [[-> _]|[h [_ [_ Hb]]]]; [discriminate|]. intros ->.
+        destruct (o h s) as [[|n]| |kind]; cbn [bad_answer] in Hb; try discriminate; try tauto. destruct Hb; discriminate. }
+      destruct r1 as [[]|c i| |]; [congruence| | |];
+        (cbn [fst snd]; right; split; [exact R1|]; exists [], b, rest, p, s;
+         split; [reflexivity|]; split; [exact E1|]; split; [exact Hs|];
+         split; [rewrite E2; reflexivity|]; split; [rewrite W; reflexivity|exact Hst]).
+Qed.
+
+(* sequencing, and the cut: after a failing write_all nothing more is offered to the writer *)
+Lemma gfeed_app o fuel : forall l1 l2 st,
+  gfeed fuel o st (l1 ++ l2) =
+  match gfeed fuel o st l1 with
+  | (st1, Ok _) => gfeed fuel o st1 l2
+  | (st1, e) => (st1, e)
+  end.
+Proof.
+  induction l1 as [|b l1 IH]; intros l2 st; cbn [app gfeed]; [reflexivity|].
+  destruct (gwrite_all fuel o st b) as [st1 [[]| | |]]; [apply IH|reflexivity|reflexivity|reflexivity].
+Qed.
+
+Lemma gfeed_cut o fuel l1 l2 st : snd (gfeed fuel o st l1) <> Ok tt -> gfeed fuel o st (l1 ++ l2) = gfeed fuel o st l1.
+Proof.
+  intros H. rewrite gfeed_app. destruct (gfeed fuel o st l1) as [st1 [[]| | |]]; cbn [snd] in H; [congruence|reflexivity|reflexivity|reflexivity].
+Qed.
+
+
+(* every `write` call offered a non-empty suffix of one of the buffers of the trace; the log only grows *)
+Lemma gfeed_hist o fuel : forall bufs st, log_good o (ghist st) ->
+  exists hnew, ghist (fst (gfeed fuel o st bufs)) = hnew ++ ghist st
+    /\ Forall (fun x => exists b, In b bufs /\ suffix_of b x) hnew.
+Proof.
+  induction bufs as [|b rest IH]; intros st HG.
+  - exists []. split; [reflexivity|constructor].
+  - cbn [gfeed]. destruct (gwrite_all_spec o fuel st b HG) as [_ [[h1 [Hh Hs]] [p [s [_ [_ E3]]]]]].
+    destruct (gwrite_all fuel o st b) as [st1 r1]. cbn [fst snd] in Hh, E3.
+    assert (Hs' : Forall (fun x => exists b', In b' (b :: rest) /\ suffix_of b' x) h1).
+    { eapply Forall_impl; [|exact Hs]. intros x Hx. exists b. split; [left; reflexivity|exact Hx]. }
+    destruct r1 as [[]| | |].
+    + destruct E3 as [[_ [_ HG1]]|[_ [[E _]|[h [_ [_ Hb]]]]]].
+      * destruct (IH st1 HG1) as [h2 [Hh2 Hs2]]. exists (h2 ++ h1).
+        split; [rewrite Hh2, Hh, app_assoc; reflexivity|]. apply Forall_app. split; [|exact Hs'].
+        eapply Forall_impl; [|exact Hs2]. intros x [b' [Hi Hx]]. exists b'. split; [right; exact Hi|exact Hx].
+      * discriminate.
+      * exfalso. destruct (o h s) as [[|n]| |kind]; cbn [bad_answer] in Hb; try discriminate; try tauto. destruct Hb; discriminate.
+    + cbn [fst]. exists h1. split; [exact Hh|exact Hs'].
+    + cbn [fst]. exists h1. split; [exact Hh|exact Hs'].
+    + cbn [fst]. exists h1. split; [exact Hh|exact Hs'].
+Qed.
+
+(* the first failing write_all: the run IS the run up to and including that write_all *)
+Lemma gfeed_fail_split o fuel : forall bufs st, snd (gfeed fuel o st bufs) <> Ok tt ->
+  exists done b rest, bufs = done ++ b :: rest
+    /\ snd (gfeed fuel o st done) = Ok tt
+    /\ snd (gwrite_all fuel o (fst (gfeed fuel o st done)) b) <> Ok tt
+    /\ gfeed fuel o st bufs = gwrite_all fuel o (fst (gfeed fuel o st done)) b.
+Proof.
+  induction bufs as [|b rest IH]; intros st H; [cbn [gfeed snd] in H; congruence|].
+  cbn [gfeed] in H |- *. destruct (gwrite_all fuel o st b) as [st1 r1] eqn:E.
+  destruct r1 as [[]|c i| |].
+  - destruct (IH st1 H) as [done [b' [rest' [B1 [B2 [B3 B4]]]]]]. exists (b :: done), b', rest'.
+    split; [rewrite B1; reflexivity|]. cbn [gfeed]. rewrite E. auto.
+  - exists [], b, rest. cbn [gfeed fst snd app]. rewrite E. cbn [snd]. repeat split; auto; discriminate.
+  - exists [], b, rest. cbn [gfeed fst snd app]. rewrite E. cbn [snd]. repeat split; auto; discriminate.
+  - exists [], b, rest. cbn [gfeed fst snd app]. rewrite E. cbn [snd]. repeat split; auto; discriminate.
+Qed.
+
+(* ================================================= the run of the serializer ================================================= *)
+Definition lift_out {A} (t : tr A) (r : res unit) : res A :=
+  match r with Ok _ => snd t | Err c i => Err c i | OutOfFuel => OutOfFuel | Panic => Panic end.
+
+Lemma grun_unfold {A} fuel o st (t : tr A) :
+  grun_writer fuel o st t = (fst (gfeed fuel o st (fst t)), lift_out t (snd (gfeed fuel o st (fst t)))).
+Proof. unfold grun_writer. destruct (gfeed fuel o st (fst t)) as [st1 [[]| | |]]; reflexivity. Qed.
+
+Lemma bad_answer_lift {A} (t : tr A) resp s (r : res unit) : bad_answer resp s r -> bad_answer resp s (lift_out t r).
+Proof.
+  destruct resp as [[|n]| |kind]; cbn [bad_answer]; [intros ->; reflexivity| |tauto|intros ->; reflexivity].
+  intros [H ->]. split; [exact H|reflexivity].
+Qed.
+
+Lemma stopped_lift {A} (t : tr A) o hist s (r : res unit) : stopped o hist s r -> stopped o hist s (lift_out t r).
+Proof.
+  intros [[-> H]|[h [E [G B]]]]; [left; split; [reflexivity|exact H]|].
+  right. exists h. split; [exact E|]. split; [exact G|]. apply bad_answer_lift. exact B.
+Qed.
+
+(* C13 (writer half), for every oracle: the accepted bytes are a prefix of the fault-free output [concat (fst t)].
+   Exactly: either everything was written, every buffer was handed over, and the outcome is the fault-free one [snd t];
+   or the run stopped inside buffer [b] = p ++ s of the trace: accepted = the buffers before it, whole, plus the part [p] of b;
+   the write_all log ends with b; and ([stopped]) either the fuel ran out or the LAST `write` call — which offered [s] — got
+   the answer that produced the outcome. *)
+Theorem C13g_prefix {A} (o : oracle) (fuel : nat) (t : tr A) :
+  let st' := fst (grun_writer fuel o g0 t) in
+  let r := snd (grun_writer fuel o g0 t) in
+  is_prefix (gacc st') (concat (fst t))
+  /\ ((r = snd t /\ gacc st' = concat (fst t) /\ gwa st' = rev (fst t) /\ log_good o (ghist st'))
+      \/ (exists done b rest p s, fst t = done ++ b :: rest /\ b = p ++ s /\ s <> []
+            /\ gacc st' = concat done ++ p /\ gwa st' = rev (done ++ [b]) /\ stopped o (ghist st') s r)).
+Proof.
+  cbv zeta. rewrite grun_unfold. cbn [fst snd].
+  assert (HG : log_good o (ghist g0)) by exact I.
+  destruct (gfeed_spec o fuel (fst t) g0 HG) as [[R [A1 [A2 A3]]]|[R [done [b [rest [p [s [B1 [B2 [B3 [B4 [B5 B6]]]]]]]]]]]].
+  - cbn [g0 gstart gacc gwa app] in A1, A2. rewrite app_nil_r in A2.
+    split; [exists []; rewrite A1, app_nil_r; reflexivity|]. left. rewrite R. cbn [lift_out]. auto.
+  - cbn [g0 gstart gacc gwa app] in B4, B5. rewrite app_nil_r in B5.
+    split.
+    { exists (s ++ concat rest). rewrite B4, B1, concat_app. cbn [concat]. rewrite B2, <- !app_assoc. reflexivity. }
+    right. exists done, b, rest, p, s. repeat (split; [assumption|]). apply stopped_lift. exact B6.
+Qed.
+
+(* if ANY `write` call of the run was answered with an error, with Ok(0), or with more than it was offered, then that call is
+   the last one in the call log — no further `write` call was made — and the outcome is the corresponding error:
+   Err (Io kind) with the writer's kind, Err (Io WriteZero), Panic. *)
+Theorem C13g_error_kind {A} (o : oracle) (fuel : nat) (t : tr A) :
+  let st' := fst (grun_writer fuel o g0 t) in
+  let r := snd (grun_writer fuel o g0 t) in
+  forall h2 s h1, ghist st' = h2 ++ s :: h1 ->
+    s <> []
+    /\ (forall kind, o h1 s = RFail kind -> h2 = [] /\ r = Err (Io kind) O)
+    /\ (o h1 s = RAccept 0 -> h2 = [] /\ r = Err (Io KIND_WRITE_ZERO) O)
+    /\ (forall n, o h1 s = RAccept n -> length s < n -> h2 = [] /\ r = Panic).
+Proof.
+  cbv zeta. intros h2 s h1 E.
+  assert (Hgood : log_good o (ghist (fst (grun_writer fuel o g0 t))) ->
+    s <> [] /\ (forall kind, o h1 s = RFail kind -> h2 = [] /\ snd (grun_writer fuel o g0 t) = Err (Io kind) O)
+    /\ (o h1 s = RAccept 0 -> h2 = [] /\ snd (grun_writer fuel o g0 t) = Err (Io KIND_WRITE_ZERO) O)
+    /\ (forall n, o h1 s = RAccept n -> length s < n -> h2 = [] /\ snd (grun_writer fuel o g0 t) = Panic)).
+  { intros G. rewrite E in G. destruct (log_good_split o h2 s h1 G) as [N [Gr _]].
+    split; [exact N|]. split; [|split].
+    - intros kind Ek. rewrite Ek in Gr. destruct Gr.
+    - intros Ek. rewrite Ek in Gr. cbn [good_resp] in Gr. lia.
+    - intros n Ek Hn. rewrite Ek in Gr. cbn [good_resp] in Gr. lia. }
+  destruct (C13g_prefix o fuel t) as [_ [[_ [_ [_ G]]]|[done [b [rest [p [s0 [_ [_ [N0 [_ [_ St]]]]]]]]]]]]; [exact (Hgood G)|].
+  destruct St as [[_ G]|[h [Eh [G B]]]]; [exact (Hgood G)|].
+  rewrite Eh in E. destruct h2 as [|x h2].
+  - cbn [app] in E. injection E as <- <-. split; [exact N0|]. split; [|split].
+    + intros kind Ek. rewrite Ek in B. cbn [bad_answer] in B. auto.
+    + intros Ek. rewrite Ek in B. cbn [bad_answer] in B. auto.
+    + intros n Ek Hn. rewrite Ek in B. destruct n as [|n]; [lia|]. cbn [bad_answer] in B. split; [reflexivity|tauto].
+  - cbn [app] in E. injection E as _ E. rewrite E in G. destruct (log_good_split o h2 s h1 G) as [N [Gr _]].
+    split; [exact N|]. split; [|split].
+    + intros kind Ek. rewrite Ek in Gr. destruct Gr.
+    + intros Ek. rewrite Ek in Gr. cbn [good_resp] in Gr. lia.
+    + intros n Ek Hn. rewrite Ek in Gr. cbn [good_resp] in Gr. lia.
+Qed.
+
+(* after the failing write_all nothing is offered to the writer: the whole run — accepted bytes, both call logs, outcome — is
+   the run of the trace cut after the failing buffer, whatever followed it in the trace and whatever the trace's own outcome *)
+Theorem C13g_cut {A} (o : oracle) (fuel : nat) (t : tr A) :
+  snd (gfeed fuel o g0 (fst t)) <> Ok tt ->
+  exists done b rest, fst t = done ++ b :: rest
+    /\ snd (gfeed fuel o g0 done) = Ok tt
+    /\ forall (rest' : list bytes) (x : res A), grun_writer fuel o g0 (done ++ b :: rest', x) = grun_writer fuel o g0 t.
+Proof.
+  intros H. destruct (gfeed_fail_split o fuel (fst t) g0 H) as [done [b [rest [B1 [B2 [B3 B4]]]]]].
+  exists done, b, rest. split; [exact B1|]. split; [exact B2|]. intros rest' x.
+  assert (Hc : forall l, gfeed fuel o g0 (done ++ b :: l) = gwrite_all fuel o (fst (gfeed fuel o g0 done)) b).
+  { intros l. rewrite gfeed_app. destruct (gfeed fuel o g0 done) as [st1 r1]. cbn [fst snd] in B2, B3 |- *. subst r1.
+    cbn [gfeed]. destruct (gwrite_all fuel o st1 b) as [st2 [[]| | |]]; cbn [snd] in B3; [congruence|reflexivity|reflexivity|reflexivity]. }
+  rewrite !grun_unfold. cbn [fst snd]. rewrite B1, !Hc.
+  destruct (gwrite_all fuel o (fst (gfeed fuel o g0 done)) b) as [st2 [[]| | |]]; cbn [snd] in B3; [congruence|reflexivity|reflexivity|reflexivity].
+Qed.
+
+(* ================================================= fuel ================================================= *)
+(* more fuel does not change a run that did not run out *)
+Lemma gloop_fuel_mono o : forall f st buf, snd (gwrite_all_loop f o st buf) <> OutOfFuel ->
+  forall f', f <= f' -> gwrite_all_loop f' o st buf = gwrite_all_loop f o st buf.
+Proof.
+  induction f as [|f IH]; intros st buf H f' Hf.
+  - destruct buf as [|b0 r0]; [rewrite !gloop_nil; reflexivity|]. cbn [gwrite_all_loop snd] in H. congruence.
+  - destruct buf as [|b0 r0]; [rewrite !gloop_nil; reflexivity|].
+    assert (Hne : b0 :: r0 <> []) by discriminate. remember (b0 :: r0) as buf eqn:Ebuf. clear Ebuf b0 r0.
+    destruct f' as [|f']; [lia|]. rewrite (gloop_S f o st buf Hne) in H |- *. rewrite (gloop_S f' o st buf Hne).
+    cbv zeta in H |- *.
+    destruct (o (ghist st) buf) as [[|n]| |kind]; [reflexivity| |apply IH; [exact H|lia]|reflexivity].
+    destruct (Nat.ltb (length buf) (S n)); [reflexivity|apply IH; [exact H|lia]].
+Qed.
+
+(* "the oracle interrupts at most K times in a row": when the same buffer is offered again and again (which is what
+   write_all does on Interrupted), one of the first K+1 answers is not Interrupted *)
+Definition interrupts_bounded (o : oracle) (K : nat) : Prop :=
+  forall hist buf, exists j, j <= K /\ o (repeat buf j ++ hist) buf <> RInterrupted.
+
+(* after at most d interruptions the loop makes a step that is not an interruption *)
+Lemma gloop_skip_interrupts o (buf : bytes) (f : nat) : buf <> [] ->
+  (forall f' n st2, f <= f' -> 1 <= n <= length buf -> snd (gwrite_all_loop f' o st2 (skipn n buf)) <> OutOfFuel) ->
+  forall d st, o (repeat buf d ++ ghist st) buf <> RInterrupted ->
+  snd (gwrite_all_loop (d + 1 + f) o st buf) <> OutOfFuel.
+Proof.
+  intros Hne Hk. induction d as [|d IH]; intros st Hd.
+  - cbn [repeat app] in Hd. replace (0 + 1 + f) with (S f) by lia. rewrite (gloop_S f o st buf Hne). cbv zeta.
+    destruct (o (ghist st) buf) as [[|n]| |kind]; [discriminate| |congruence|discriminate].
+    destruct (Nat.ltb (length buf) (S n)) eqn:El; [discriminate|]. apply Nat.ltb_ge in El. apply Hk; lia.
+  - replace (S d + 1 + f) with (S (d + 1 + f)) by lia. rewrite (gloop_S (d + 1 + f) o st buf Hne). cbv zeta.
+    destruct (o (ghist st) buf) as [[|n]| |kind]; [discriminate| | |discriminate].
+    + destruct (Nat.ltb (length buf) (S n)) eqn:El; [discriminate|]. apply Nat.ltb_ge in El. apply Hk; lia.
+    + apply IH. cbn [ghist]. rewrite repeat_snoc. exact Hd.
+Qed.
+
+(* totality: with at most K interruptions in a row, (K+1) * |buf| `write` calls are enough for write_all to return *)
+Theorem C13g_total (o : oracle) (K : nat) : interrupts_bounded o K ->
+  forall buf fuel st, S K * length buf <= fuel -> snd (gwrite_all_loop fuel o st buf) <> OutOfFuel.
+Proof.
+  intros HB.
+  assert (Hall : forall m buf, length buf <= m -> forall fuel st, S K * length buf <= fuel ->
+                 snd (gwrite_all_loop fuel o st buf) <> OutOfFuel);
+    [|intros buf; exact (Hall (length buf) buf (le_n _))].
+  induction m as [|m IH]; intros buf Hm fuel st Hf.
+  - destruct buf as [|b0 r0]; [rewrite gloop_nil; discriminate|cbn [length] in Hm; lia].
+  - destruct buf as [|b0 r0]; [rewrite gloop_nil; discriminate|].
+    assert (Hne : b0 :: r0 <> []) by discriminate. remember (b0 :: r0) as buf eqn:Ebuf.
+    assert (Hl : 1 <= length buf) by (rewrite Ebuf; cbn [length]; lia). clear Ebuf b0 r0.
+    destruct (HB (ghist st) buf) as [j [Hj Ho]].
+    assert (Hmul : S K * length buf = S K + S K * (length buf - 1)).
+    { replace (length buf) with (S (length buf - 1)) at 1 by lia. rewrite Nat.mul_succ_r. lia. }
+    replace fuel with (j + 1 + (fuel - j - 1)) by lia.
+    apply (gloop_skip_interrupts o buf (fuel - j - 1) Hne); [|exact Ho].
+    intros f' n st2 Hf' Hn. apply IH; [rewrite skipn_length; lia|].
+    rewrite skipn_length.
+    assert (S K * (length buf - n) <= S K * (length buf - 1)) by (apply Nat.mul_le_mono_l; lia). lia.
+Qed.
+
+(* ================================================= no fault ================================================= *)
+(* the oracle never fails, never answers Ok(0), never claims more than it was offered *)
+Definition never_bad (o : oracle) : Prop := forall hist buf, buf <> [] -> good_resp (o hist buf) buf.
+
+Lemma stopped_never_bad {A} o hist s (r : res A) : never_bad o -> s <> [] -> stopped o hist s r -> r = OutOfFuel.
+Proof.
+  intros HN Hs [[-> _]|[h [_ [_ B]]]]; [reflexivity|]. exfalso. exact (good_not_bad _ _ _ (HN h s Hs) B).
+Qed.
+
+(* a well-behaved oracle — whatever its chunking and its (bounded) interruptions — gives the fault-free run *)
+Theorem C13g_no_fault {A} (o : oracle) (K fuel : nat) (t : tr A) :
+  never_bad o -> interrupts_bounded o K -> (forall b, In b (fst t) -> S K * length b <= fuel) ->
+  let st' := fst (grun_writer fuel o g0 t) in
+  snd (grun_writer fuel o g0 t) = snd t /\ gacc st' = concat (fst t) /\ gwa st' = rev (fst t).
+Proof.
+  intros HN HB Hf. cbv zeta.
+  destruct (snd (gfeed fuel o g0 (fst t))) as [[]|c i| |] eqn:Er.
+  - rewrite grun_unfold. cbn [fst snd]. rewrite Er. cbn [lift_out].
+    destruct (gfeed_spec o fuel (fst t) g0 I) as [[_ [A1 [A2 _]]]|[R _]]; [|rewrite Er in R; congruence].
+    cbn [g0 gstart gacc gwa app] in A1, A2. rewrite app_nil_r in A2. auto.
+  - exfalso. destruct (gfeed_spec o fuel (fst t) g0 I) as [[R _]|[_ [done [b [rest [p [s [_ [_ [Hs [_ [_ St]]]]]]]]]]]].
+    + rewrite Er in R. discriminate.
+    + rewrite Er in St. pose proof (stopped_never_bad o _ s _ HN Hs St) as X. discriminate.
+  - exfalso.
+    assert (Hn : snd (gfeed fuel o g0 (fst t)) <> Ok tt) by (rewrite Er; discriminate).
+    destruct (gfeed_fail_split o fuel (fst t) g0 Hn) as [done [b [rest [B1 [_ [_ B4]]]]]].
+    rewrite B4 in Er. unfold gwrite_all in Er. revert Er. apply (C13g_total o K HB).
+    apply Hf. rewrite B1. apply in_or_app. right. left. reflexivity.
+  - exfalso. destruct (gfeed_spec o fuel (fst t) g0 I) as [[R _]|[_ [done [b [rest [p [s [_ [_ [Hs [_ [_ St]]]]]]]]]]]].
+    + rewrite Er in R. discriminate.
+    + rewrite Er in St. pose proof (stopped_never_bad o _ s _ HN Hs St) as X. discriminate.
+Qed.
+
+(* ================================================= the writers of Model/Ser.v are oracles ================================================= *)
+Lemma write_once_facts w buf :
+  length (sched (fst (write_once w buf))) <= length (sched w)
+  /\ match snd (write_once w buf) with
+     | WOk n => n <= length buf /\ accepted (fst (write_once w buf)) = accepted w ++ firstn n buf
+     | _ => accepted (fst (write_once w buf)) = accepted w
+     end.
+Proof.
+  unfold write_once.
+  destruct (sched w) as [|c rs]; [|destruct (Nat.eqb c 0)];
+    (destruct (fail_at w) as [[k kind]|]; [destruct (Nat.leb k (length (accepted w)))|]);
+    cbn [fst snd accepted sched length]; (split; [lia|]); try reflexivity; (split; [lia|reflexivity]).
+Qed.
+
+Lemma write_all_loop_sched : forall f w buf, length (sched (fst (write_all_loop f w buf))) <= length (sched w).
+Proof.
+  induction f as [|f IH]; intros w buf; destruct buf as [|b0 r0]; cbn [write_all_loop fst]; try lia.
+  pose proof (write_once_facts w (b0 :: r0)) as [Hs _].
+  destruct (write_once w (b0 :: r0)) as [w1 [[|n]| |kind]]; cbn [fst] in Hs |- *; try lia.
+  - specialize (IH w1 (skipn (S n) (b0 :: r0))). lia.
+  - specialize (IH w1 (b0 :: r0)). lia.
+Qed.
+
+Lemma write_all_loop_not_oof f w buf : length (sched w) + length buf < f -> snd (write_all_loop f w buf) <> OutOfFuel.
+Proof.
+  intros Hf. destruct (write_all_loop_spec f w buf Hf) as [p [s [_ [_ [_ [[-> _]|[k [kind [_ [-> _]]]]]]]]]]; discriminate.
+Qed.
+
+(* the two loops in lock-step (same fuel): the oracle's view of the writer ([replay]) is the writer *)
+Lemma sim_loop w0 : forall fuel st buf, accepted (replay w0 (ghist st)) = gacc st ->
+  replay w0 (ghist (fst (gwrite_all_loop fuel (oracle_of_writer w0) st buf))) = fst (write_all_loop fuel (replay w0 (ghist st)) buf)
+  /\ gacc (fst (gwrite_all_loop fuel (oracle_of_writer w0) st buf)) = accepted (fst (write_all_loop fuel (replay w0 (ghist st)) buf))
+  /\ snd (gwrite_all_loop fuel (oracle_of_writer w0) st buf) = snd (write_all_loop fuel (replay w0 (ghist st)) buf).
+Proof.
+  induction fuel as [|f IH]; intros st buf Ha.
+  - destruct buf as [|b0 r0]; cbn [gwrite_all_loop write_all_loop fst snd]; auto.
+  - destruct buf as [|b0 r0]; [cbn [gwrite_all_loop write_all_loop fst snd]; auto|].
+    assert (Hne : b0 :: r0 <> []) by discriminate. rewrite (gloop_S f _ st (b0 :: r0) Hne). cbn [write_all_loop].
+    remember (b0 :: r0) as buf eqn:Ebuf. clear Ebuf b0 r0. cbv zeta.
+    unfold oracle_of_writer at 1 4 7.
+    pose proof (write_once_facts (replay w0 (ghist st)) buf) as [_ Hw].
+    destruct (write_once (replay w0 (ghist st)) buf) as [w1 x] eqn:E. cbn [fst snd] in Hw |- *.
+    destruct x as [[|n]| |kind]; cbn [resp_of_wres].
+    + cbn [fst snd ghist gacc replay]. rewrite E. cbn [fst]. destruct Hw as [_ Hw]. rewrite Hw. cbn [firstn]. rewrite app_nil_r. auto.
+    + destruct Hw as [Hn Hw]. destruct (Nat.ltb (length buf) (S n)) eqn:El; [apply Nat.ltb_lt in El; lia|].
+      set (st2 := mkG (buf :: ghist st) (gwa st) (gacc st ++ firstn (S n) buf)).
+      assert (R2 : replay w0 (ghist st2) = w1) by (unfold st2; cbn [ghist replay]; rewrite E; reflexivity).
+      assert (Ha2 : accepted (replay w0 (ghist st2)) = gacc st2) by (rewrite R2, Hw; unfold st2; cbn [gacc]; rewrite Ha; reflexivity).
+      pose proof (IH st2 (skipn (S n) buf) Ha2) as X. rewrite R2 in X. exact X.
+    + set (st1 := mkG (buf :: ghist st) (gwa st) (gacc st)).
+      assert (R1 : replay w0 (ghist st1) = w1) by (unfold st1; cbn [ghist replay]; rewrite E; reflexivity).
+      assert (Ha1 : accepted (replay w0 (ghist st1)) = gacc st1) by (rewrite R1, Hw; unfold st1; cbn [gacc]; exact Ha).
+      pose proof (IH st1 buf Ha1) as X. rewrite R1 in X. exact X.
+    + cbn [fst snd ghist gacc replay]. rewrite E. cbn [fst]. rewrite Hw. auto.
+Qed.
+
+(* write_all against write_all: any fuel above the one Model/Ser.v's write_all gives itself *)
+Lemma sim_write_all w0 fuel st buf : accepted (replay w0 (ghist st)) = gacc st ->
+  length (sched (replay w0 (ghist st))) + length buf < fuel ->
+  replay w0 (ghist (fst (gwrite_all fuel (oracle_of_writer w0) st buf))) = fst (write_all (replay w0 (ghist st)) buf)
+  /\ gacc (fst (gwrite_all fuel (oracle_of_writer w0) st buf)) = accepted (fst (write_all (replay w0 (ghist st)) buf))
+  /\ snd (gwrite_all fuel (oracle_of_writer w0) st buf) = snd (write_all (replay w0 (ghist st)) buf).
+Proof.
+  intros Ha Hf. unfold gwrite_all, write_all.
+  set (st0 := mkG (ghist st) (buf :: gwa st) (gacc st)).
+  set (f0 := S (length (sched (replay w0 (ghist st))) + length buf)).
+  assert (Ha0 : accepted (replay w0 (ghist st0)) = gacc st0) by exact Ha.
+  pose proof (sim_loop w0 f0 st0 buf Ha0) as [X1 [X2 X3]]. change (ghist st0) with (ghist st) in X1, X2, X3.
+  assert (Hn : snd (gwrite_all_loop f0 (oracle_of_writer w0) st0 buf) <> OutOfFuel).
+  { rewrite X3. apply write_all_loop_not_oof. unfold f0. lia. }
+  rewrite (gloop_fuel_mono _ f0 st0 buf Hn fuel) by (unfold f0; lia). auto.
+Qed.
+
+Lemma sim_feed w0 fuel : forall bufs st, accepted (replay w0 (ghist st)) = gacc st ->
+  (forall b, In b bufs -> length (sched (replay w0 (ghist st))) + length b < fuel) ->
+  replay w0 (ghist (fst (gfeed fuel (oracle_of_writer w0) st bufs))) = fst (feed (replay w0 (ghist st)) bufs)
+  /\ gacc (fst (gfeed fuel (oracle_of_writer w0) st bufs)) = accepted (fst (feed (replay w0 (ghist st)) bufs))
+  /\ snd (gfeed fuel (oracle_of_writer w0) st bufs) = snd (feed (replay w0 (ghist st)) bufs).
+Proof.
+  induction bufs as [|b rest IH]; intros st Ha Hf; [cbn [gfeed feed fst snd]; auto|].
+  cbn [gfeed feed].
+  destruct (sim_write_all w0 fuel st b Ha (Hf b (or_introl eq_refl))) as [X1 [X2 X3]].
+  pose proof (write_all_loop_sched (S (length (sched (replay w0 (ghist st))) + length b)) (replay w0 (ghist st)) b) as Hs.
+  fold (write_all (replay w0 (ghist st)) b) in Hs.
+  destruct (gwrite_all fuel (oracle_of_writer w0) st b) as [st1 r1].
+  destruct (write_all (replay w0 (ghist st)) b) as [w1 r1']. cbn [fst snd] in X1, X2, X3, Hs. subst r1'.
+  destruct r1 as [[]|c i| |]; cbn [fst snd]; auto.
+  assert (Ha1 : accepted (replay w0 (ghist st1)) = gacc st1) by (rewrite X1, X2; reflexivity).
+  assert (Hf1 : forall b', In b' rest -> length (sched (replay w0 (ghist st1))) + length b' < fuel).
+  { intros b' Hi. rewrite X1. specialize (Hf b' (or_intror Hi)). lia. }
+  pose proof (IH st1 Ha1 Hf1) as X. rewrite X1 in X. exact X.
+Qed.
+
+(* Model/Ser.v's writer model is an instance of the oracle model: same accepted bytes, same outcome — and the oracle's view of
+   the writer after the run is the writer after the run.  (fuel: anything above |sched| + the longest buffer) *)
+Theorem C13g_refines_old {A} (w : writer) (fuel : nat) (t : tr A) :
+  (forall b, In b (fst t) -> length (sched w) + length b < fuel) ->
+  let g := grun_writer fuel (oracle_of_writer w) (gstart (accepted w)) t in
+  gacc (fst g) = accepted (fst (run_writer w t))
+  /\ snd g = snd (run_writer w t)
+  /\ replay w (ghist (fst g)) = fst (run_writer w t).
+Proof.
+  intros Hf. cbv zeta. rewrite grun_unfold. cbn [fst snd]. unfold run_writer.
+  destruct (sim_feed w fuel (fst t) (gstart (accepted w)) eq_refl Hf) as [X1 [X2 X3]].
+  cbn [gstart ghist replay] in X1, X2, X3.
+  destruct (feed w (fst t)) as [w1 r1]. cbn [fst snd] in X1, X2, X3. rewrite X3.
+  destruct r1 as [[]|c i| |]; cbn [fst snd lift_out]; auto.
+Qed.
+
+(* a fuel that always fits *)
+Corollary C13g_refines_old_fuel {A} (w : writer) (t : tr A) :
+  let g := grun_writer (S (length (sched w) + length (concat (fst t)))) (oracle_of_writer w) (gstart (accepted w)) t in
+  gacc (fst g) = accepted (fst (run_writer w t)) /\ snd g = snd (run_writer w t).
+Proof.
+  cbv zeta. destruct (C13g_refines_old w (S (length (sched w) + length (concat (fst t)))) t) as [X1 [X2 _]]; [|auto].
+  intros b Hi. pose proof (in_length_concat b (fst t) Hi). lia.
+Qed.
+
+(* so the prefix clause of C13_write_prefix is a corollary of the theorem about all oracles *)
+Corollary C13_write_prefix_from_gen {A} (w : writer) (t : tr A) : accepted w = [] ->
+  is_prefix (accepted (fst (run_writer w t))) (concat (fst t)).
+Proof.
+  intros Hw. destruct (C13g_refines_old_fuel w t) as [X1 _]. rewrite <- X1. rewrite Hw.
+  exact (proj1 (C13g_prefix (oracle_of_writer w) _ t)).
+Qed.
+
+(* ================================================= what is offered to the writer ================================================= *)
+(* whatever the oracle does: every buffer handed to write_all is a buffer of the trace, and every buffer offered to `write`
+   is a non-empty suffix of one (write_all re-offers the unwritten rest) *)
+Theorem C13g_logs {A} (o : oracle) (fuel : nat) (t : tr A) (P : bytes -> Prop) : Forall P (fst t) ->
+  let st' := fst (grun_writer fuel o g0 t) in
+  Forall P (gwa st') /\ Forall (fun x => exists b, P b /\ suffix_of b x) (ghist st').
+Proof.
+  intros HP. cbv zeta. split.
+  - destruct (C13g_prefix o fuel t) as [_ [[_ [_ [W _]]]|[done [b [rest [p [s [E [_ [_ [_ [W _]]]]]]]]]]]]; rewrite W; apply Forall_rev.
+    + exact HP.
+    + rewrite E in HP. apply Forall_app in HP. destruct HP as [H1 H2]. apply Forall_app. split; [exact H1|].
+      constructor; [exact (Forall_inv H2)|constructor].
+  - rewrite grun_unfold. cbn [fst]. destruct (gfeed_hist o fuel (fst t) g0 I) as [hnew [Hh Hs]].
+    rewrite Hh. cbn [g0 gstart ghist]. rewrite app_nil_r. eapply Forall_impl; [|exact Hs].
+    intros x [b [Hi Hx]]. exists b. split; [|exact Hx]. rewrite Forall_forall in HP. exact (HP b Hi).
+Qed.
+
+(* with C13_buf_utf8: every buffer the serializer hands to ANY writer is valid UTF-8 on its own (and what `write` is offered is
+   a non-empty suffix of such a buffer: the whole buffer unless the writer itself took only a part of it) *)
+Theorem C13g_buf_utf8 : forall cf fmt32 fmt64 F v (o : oracle) (fuel : nat), ryu_json fmt32 fmt64 ->
+  (forall ind, F = Pretty ind -> utf8_valid ind = true) -> wfs v = true ->
+  let st' := fst (grun_writer fuel o g0 (serialize_trace cf fmt32 fmt64 F v)) in
+  Forall (fun b => utf8_valid b = true) (gwa st')
+  /\ Forall (fun x => exists b, utf8_valid b = true /\ suffix_of b x) (ghist st').
+Proof.
+  intros cf f32 f64 F v o fuel HR Hind W.
+  exact (C13g_logs o fuel (serialize_trace cf f32 f64 F v) (fun b => utf8_valid b = true) (C13_buf_utf8_main' cf f32 f64 F v HR Hind W)).
+Qed.
+
+(* ================================================= instances, on a trace of the real serializer ================================================= *)
+Module Examples.
+  Open Scope N_scope.
+  Definition cf0 : cfg := mkCfg false false false false.
+  Definition fmt0 : N -> bytes := fun _ => [49; 46; 53].
+  (* struct { a: 17u8, "b\n": [true, "x\ny", None] }, compact *)
+  Definition ex_v : sval := SStruct [([97], SInt U8 17); ([98; 10], SSeq None [SBool true; SStr [120; 10; 121]; SNone])].
+  Definition ex_t : tr unit := serialize_trace cf0 fmt0 fmt0 Compact ex_v.
+  Definition ex_out : bytes := concat (fst ex_t).
+
+  Example ex_trace : ex_t =
+    ([[123]; [34]; [97]; [34]; [58]; [49; 55]; [44]; [34]; [98]; [92; 110]; [34]; [58]; [91]; [116; 114; 117; 101]; [44]; [34];
+      [120]; [92; 110]; [121]; [34]; [44]; [110; 117; 108; 108]; [93]; [125]], Ok tt).
+  Proof. vm_compute. reflexivity. Qed.
+
+  (* a well-behaved writer, short writes of 3 bytes: fault-free *)
+  Example ex_short : let g := grun_writer 10 (o_short 3) g0 ex_t in snd g = Ok tt /\ gacc (fst g) = ex_out.
+  Proof. vm_compute. auto. Qed.
+
+  (* interrupted on every other call, one byte at a time: fault-free with fuel 2 * |longest buffer| = 8 *)
+  Example ex_stutter : let g := grun_writer 8 o_stutter g0 ex_t in snd g = Ok tt /\ gacc (fst g) = ex_out.
+  Proof. vm_compute. auto. Qed.
+
+  (* transient failure: `write` call #5 (the buffer "17") fails once with kind 7; the writer would accept again, but it is never asked *)
+  Example ex_fail_once : grun_writer 10 (o_fail_once 5 7) g0 ex_t =
+    (mkG [[49; 55]; [58]; [34]; [97]; [34]; [123]] [[49; 55]; [58]; [34]; [97]; [34]; [123]] [123; 34; 97; 34; 58], Err (Io 7) O).
+  Proof. vm_compute. reflexivity. Qed.
+
+  (* all-or-nothing sink of capacity 6: "17" does not fit behind `{"a":` (5 bytes) and is refused with kind 28, although the
+     one-byte buffers that follow would fit: nothing more is offered *)
+  Example ex_all_or_nothing : grun_writer 10 (o_all_or_nothing 6 28) g0 ex_t =
+    (mkG [[49; 55]; [58]; [34]; [97]; [34]; [123]] [[49; 55]; [58]; [34]; [97]; [34]; [123]] [123; 34; 97; 34; 58], Err (Io 28) O).
+  Proof. vm_compute. reflexivity. Qed.
+
+  (* `write` call #3 returns Ok(0): ErrorKind::WriteZero *)
+  Example ex_zero : grun_writer 10 (o_zero_at 3) g0 ex_t =
+    (mkG [[34]; [97]; [34]; [123]] [[34]; [97]; [34]; [123]] [123; 34; 97], Err (Io KIND_WRITE_ZERO) O).
+  Proof. vm_compute. reflexivity. Qed.
+
+  (* a writer that claims more than it was offered: write_all's `&buf[n..]` panics *)
+  Example ex_overclaim : grun_writer 10 o_overclaim g0 ex_t = (mkG [[123]] [[123]] [], Panic).
+  Proof. vm_compute. reflexivity. Qed.
+
+  (* a writer that is interrupted forever: write_all never returns (fuel 10: ten calls, all offering the first buffer) *)
+  Example ex_interrupt_forever : grun_writer 10 o_interrupt_forever g0 ex_t = (mkG (repeat [123] 10) [[123]] [], OutOfFuel).
+  Proof. vm_compute. reflexivity. Qed.
+
+  (* ---- why persistent failures are not enough: the defective driver [gfeed_keepgoing] ---- *)
+  (* against every persistent-failure writer of Model/Ser.v (failing after k accepted bytes, k = 0..39, any of three chunkings)
+     the driver that keeps writing after a failed write_all shows the same accepted bytes and the same outcome as the correct one *)
+  Definition obs (x : gstate * res unit) : bytes * res unit := (gacc (fst x), snd x).
+  Example ex_defect_invisible : forall sc, In sc [[]; [1; 0; 2]; [0; 0; 3; 1; 0; 5]]%nat ->
+    map (fun k => obs (gfeed_keepgoing 20 (oracle_of_writer (mkW [] sc (Some (k, 5)))) g0 (fst ex_t))) (seq 0 40)
+    = map (fun k => obs (gfeed 20 (oracle_of_writer (mkW [] sc (Some (k, 5)))) g0 (fst ex_t))) (seq 0 40).
+  Proof. intros sc [<-|[<-|[<-|[]]]]; vm_compute; reflexivity. Qed.
+
+  (* against the transient failure it is exposed: the accepted bytes are not a prefix of the fault-free output
+     (the buffer "17" is missing in the middle) *)
+  Example ex_defect_exposed :
+    obs (gfeed_keepgoing 10 (o_fail_once 5 7) g0 (fst ex_t))
+    = ([123; 34; 97; 34; 58; 44; 34; 98; 92; 110; 34; 58; 91; 116; 114; 117; 101; 44; 34; 120; 92; 110; 121; 34; 44; 110; 117; 108; 108; 93; 125],
+       Err (Io 7) O)
+    /\ ~ is_prefix (gacc (fst (gfeed_keepgoing 10 (o_fail_once 5 7) g0 (fst ex_t)))) ex_out.
+  Proof.
+    split; [vm_compute; reflexivity|]. intros [s E]. vm_compute in E. discriminate E.
+  Qed.
+  (* and so is it against the all-or-nothing sink *)
+  Example ex_defect_exposed_sink :
+    ~ is_prefix (gacc (fst (gfeed_keepgoing 10 (o_all_or_nothing 6 28) g0 (fst ex_t)))) ex_out.
+  Proof. intros [s E]. vm_compute in E. discriminate E. Qed.
+End Examples.
+
+Print Assumptions C13g_prefix.
+Print Assumptions C13g_error_kind.
+Print Assumptions C13g_cut.
+Print Assumptions C13g_total.
+Print Assumptions C13g_no_fault.
+Print Assumptions C13g_refines_old.
+Print Assumptions C13_write_prefix_from_gen.
+Print Assumptions C13g_logs.
+Print Assumptions C13g_buf_utf8.
+Print Assumptions Examples.ex_defect_invisible.
+Print Assumptions Examples.ex_defect_exposed.
